@@ -1386,14 +1386,16 @@ def e_plsr(g):
     rs = g.rs()
     n = g.choice([6, 5])
     xs = g.choice([(3, 2), (4,), (2, 2, 2)])
-    ys = g.choice([(2,), (1,), (3,)])
+    ys = g.choice([(2,), (1,), (), (3,)])  # () = 1-D target vector
     X = g.arr((n,) + xs, rs=rs)
-    Y = g.arr((n,) + ys, rs=rs)
+    Y = g.arr((n,) + ys, rs=rs, kinds=("c", "f", "slice") if ys else ("c", "slice"))
     Xt = g.arr((3,) + xs, rs=rs)
+    Yt = g.arr((3,) + ys, rs=rs, kinds=("c", "f", "slice") if ys else ("c", "slice"))
     opts = dict(n_components=g.choice([2, 1]), n_iter_max=g.choice([5, 1]), random_state=g.seed())
-    how = g.choice(["fit_predict", "fit_transform", "fit_transform_both"])
+    how = g.choice(["fit_predict", "fit_transform", "transform_with_Y", "fit_transform_both"])
+    g.notes["which"] = how
 
-    def fn(X, Y, X_test, **o):
+    def fn(X, Y, X_test, Y_test, **o):
         est = CP_PLSR(**o)
         if how == "fit_predict":
             est.fit(X, Y)
@@ -1401,9 +1403,12 @@ def e_plsr(g):
         if how == "fit_transform":
             est.fit(X, Y)
             return est.transform(X_test), est.X_factors
-        return est.fit_transform(X, Y), est.transform(X_test, Y[:3])
+        if how == "transform_with_Y":
+            est.fit(X, Y)
+            return est.transform(X_test, Y_test)
+        return est.fit_transform(X, Y), est.transform(X_test, Y_test)
 
-    return dict(fn=fn, kwargs=dict(X=X, Y=Y, X_test=Xt, **opts))
+    return dict(fn=fn, kwargs=dict(X=X, Y=Y, X_test=Xt, Y_test=Yt, **opts))
 
 
 # =============================================================== random generators
@@ -1469,3 +1474,82 @@ split_entry(None, e_kron_kr, ["khatri_rao", "kronecker"], deterministic=True)
 split_entry("base", e_base, ["unfold", "tensor_to_vec", "partial_unfold", "partial_tensor_to_vec", "matricize", "fold"], deterministic=True)
 split_entry(None, e_random, ["random_tensor", "random_cp", "random_tucker", "random_tt", "random_tt_matrix", "random_tr", "random_parafac2"], seeded=True, groups=("c16",))
 split_entry("backend", e_backend_random, ["randn", "gamma", "check_random_state"], seeded=True, groups=("c16",))
+
+
+# =============================================================== remaining class wrappers / small functions
+
+
+@entry("TensorTrain.fit_transform", deterministic=True)
+def e_TT_cls(g):
+    import tensorly.decomposition as D
+
+    shape = g.shapeN()
+    rank = g.choice([2, [1] + [2] * (len(shape) - 1) + [1]])
+    tensor = g.low_rank(shape, 2)
+    return dict(fn=lambda tensor, rank: D.TensorTrain(rank).fit_transform(tensor), kwargs=dict(tensor=tensor, rank=rank))
+
+
+@entry("TensorRing.fit_transform", deterministic=True)
+def e_TR_cls(g):
+    import tensorly.decomposition as D
+
+    shape = g.shape3()
+    rank = g.choice([[1, 2, 2, 1], [2, 1, 2, 2]])
+    tensor = g.low_rank(shape, 2)
+    return dict(fn=lambda tensor, rank: D.TensorRing(rank).fit_transform(tensor), kwargs=dict(tensor=tensor, rank=rank))
+
+
+@entry("TensorTrainMatrix.fit_transform", deterministic=True)
+def e_TTM_cls(g):
+    import tensorly.decomposition as D
+
+    shape = g.choice([(2, 2, 3, 3), (2, 3, 2, 3)])
+    rank = g.choice([2, [1, 2, 1]])
+    return dict(fn=lambda tensor, rank: D.TensorTrainMatrix(rank).fit_transform(tensor), kwargs=dict(tensor=g.arr(shape), rank=rank))
+
+
+@entry("power_iteration")
+def e_power_it(g):
+    import tensorly.decomposition as D
+
+    which = g.choice(["power_iteration", "symmetric_power_iteration", "CPPower", "SymmetricCP"])
+    g.notes["which"] = which
+    rs = g.rs()
+    if which in ("symmetric_power_iteration", "SymmetricCP"):
+        v = rs.random_sample((3, 2))
+        a = g.arr((3, 3, 3), signed=False)
+        a[...] = np.einsum("ir,jr,kr->ijk", v, v, v)
+    else:
+        a = g.low_rank(g.shape3(), 2)
+    if which == "power_iteration":
+        return dict(fn=D.power_iteration, kwargs=dict(tensor=a, n_repeat=2, n_iteration=2))
+    if which == "symmetric_power_iteration":
+        return dict(fn=D.symmetric_power_iteration, kwargs=dict(tensor=a, n_repeat=2, n_iteration=2))
+    if which == "CPPower":
+        return dict(fn=lambda tensor: D.CPPower(2, n_repeat=2, n_iteration=2).fit_transform(tensor), kwargs=dict(tensor=a))
+    return dict(fn=lambda tensor: D.SymmetricCP(2, n_repeat=2, n_iteration=2).fit_transform(tensor), kwargs=dict(tensor=a))
+
+
+@entry("svd_helpers", deterministic=True)
+def e_svd_helpers(g):
+    from tensorly.tenalg.svd import svd_flip, make_svd_non_negative, truncated_svd, symeig_svd
+
+    which = g.choice(["svd_flip", "make_svd_non_negative", "truncated_svd", "symeig_svd"])
+    g.notes["which"] = which
+    shape = g.choice([(5, 3), (3, 5), (4, 4)])
+    m = g.low_rank(shape, 2)
+    if which in ("truncated_svd", "symeig_svd"):
+        fn = truncated_svd if which == "truncated_svd" else symeig_svd
+        return dict(fn=fn, kwargs=dict(matrix=m, n_eigenvecs=g.choice([2, 1, None, 6])))
+    rs = g.rs()
+    k = min(shape)
+    U = g.arr((shape[0], k), rs=rs)
+    S = g.arr((k,), rs=rs, nonneg=True, kinds=("c", "slice"))
+    V = g.arr((k, shape[1]), rs=rs)
+    if which == "svd_flip":
+        kw = dict(U=U, V=V)
+        g.opt(kw, "u_based_decision", [False], 0.4)
+        return dict(fn=svd_flip, kwargs=kw)
+    kw = dict(tensor=m, U=U, S=S, V=V)
+    g.opt(kw, "nntype", ["nndsvd", "nndsvda"], 0.5)
+    return dict(fn=make_svd_non_negative, kwargs=kw)
